@@ -36,6 +36,7 @@ type Cmd struct {
 	Lo   int64    `json:"lo,omitempty"`
 	Hi   int64    `json:"hi,omitempty"`
 	Know []string `json:"know,omitempty"` // observe: the tag lines to look at
+	Soft *int64   `json:"soft,omitempty"` // write: files can not grow past this size while the write runs (the tag-index save fails)
 	Lim  *int64   `json:"lim,omitempty"`  // stop, write: file size limit set just before the shutdown sequence / the write runs (crash injection)
 }
 
@@ -82,7 +83,13 @@ func serveMain(args []string) {
 		}
 	}
 	out := json.NewEncoder(os.Stdout)
-	srv, err := StartServer(ServerOpts{Dir: dir, WriteFlushMs: flushMs})
+	opts := ServerOpts{Dir: dir, WriteFlushMs: flushMs}
+	if len(args) > 3 && strings.HasPrefix(args[3], "ensure:") {
+		// the forwarding pipe is a configured one (PipesConfig.EnsureAtStart): Init creates it when it is not there and leaves
+		// it - and its progress - alone when it is there with the same definition
+		opts.EnsureAtStart = []pipe.Pipe{{Name: strings.TrimPrefix(args[3], "ensure:"), TagsCond: "app=c07 AND p=0"}}
+	}
+	srv, err := StartServer(opts)
 	if err != nil {
 		out.Encode(Ans{Ok: true, Started: false, Err: err.Error()})
 		os.Exit(0)
@@ -112,6 +119,26 @@ func serveMain(args []string) {
 			}
 			if c.Lim != nil {
 				crashAtFileSize(*c.Lim) // a write that creates a partition: the process dies inside the tag-index save
+			}
+			if c.Soft != nil {
+				// a write that creates a partition while files can not grow past Soft bytes (SIGXFSZ is ignored by the Go
+				// runtime: the write of the tag index fails with EFBIG half way): the save fails, the partition must not be
+				// registered and the write must not be acknowledged. The limit is lifted again afterwards.
+				var old syscall.Rlimit
+				syscall.Getrlimit(syscall.RLIMIT_FSIZE, &old)
+				syscall.Setrlimit(syscall.RLIMIT_FSIZE, &syscall.Rlimit{Cur: uint64(*c.Soft), Max: old.Max})
+				err := srvWrite(ctx, srv, c.Tags, evs)
+				syscall.Setrlimit(syscall.RLIMIT_FSIZE, &old)
+				_, perr := srv.Partitions.GetParitionInfo(c.Tags)
+				a := Ans{Ok: true, Short: err == nil}
+				if perr == nil {
+					a.Count = 1 // the partition is registered
+				}
+				if err != nil {
+					a.Err = err.Error()
+				}
+				out.Encode(a)
+				continue
 			}
 			err := srvWrite(ctx, srv, c.Tags, evs)
 			out.Encode(ans(err))
@@ -191,6 +218,7 @@ func serveMain(args []string) {
 			}
 			var got []int64
 			var complete time.Time
+			stale := false // the destination is complete, the progress file was not rewritten
 			done := WaitFor(deadline, func() bool {
 				if pi, err := srv.Partitions.GetParitionInfo(c.Dest); err == nil {
 					if j, err := srv.JCtrl.(journal.Controller).GetOrCreate(ctx, pi.JournalId); err == nil {
@@ -207,13 +235,14 @@ func serveMain(args []string) {
 					if complete.IsZero() {
 						complete = time.Now()
 					} else if time.Since(complete) > 10*time.Second {
+						stale = true
 						return true
 					}
 				}
 				time.Sleep(5 * time.Millisecond)
 				return false
 			})
-			out.Encode(Ans{Ok: true, Events: got, Count: int(time.Since(t0) / time.Millisecond), Short: !done})
+			out.Encode(Ans{Ok: true, Events: got, Count: int(time.Since(t0) / time.Millisecond), Short: !done || stale})
 		case "observe":
 			a := Ans{Ok: true}
 			for _, t := range c.Know {
